@@ -41,6 +41,16 @@ CLAIMED['C08'] = dict(
          'models (fallback= callables, renderers) and that plaintext parsing/rendering is total.',
     ref='DESIGN.md section 3, C08')
 
+CLAIMED['C17'] = dict(
+    technique='exception-escape analysis at the reader boundary + subscript-protection and f-string template rules',
+    text='Static: no curated exception source escapes SphinxInventory.update and the HTTP fetch is contained (R17.1); every index into the '
+         'split inventory line is inside a try converting IndexError or provably below a valid index, only ValueError leaves the line parser '
+         'and the caller reports and skips that line (R17.2); each decoding stage reports and yields an empty payload (R17.3); the line '
+         'template of the writer has exactly the columns the reader requires and one line is produced per visible object over the whole '
+         'subtree (R17.4). Decides reader totality for the listed failure classes and column agreement, not a real round trip.',
+    note='Trusts the exception tables (zlib.error, UnicodeDecodeError, ValueError/IndexError at the analysed sites) and zlib/Sphinx themselves.',
+    ref='DESIGN.md section 3, C17')
+
 NOT_APPLICABLE = {
     'C04': 'relation between expandName results and the interpreter import system over all projects: value computations, no clause visible in the shape of the code (DESIGN.md section 5)',
     'C06': 'quantifies over processing schedules; name resolution during the AST walk is order sensitive by design, no structural bound (DESIGN.md section 5); the one structural fact (post-processing after the drain loop) is checked under C05',
